@@ -317,6 +317,10 @@ int UtilContext::sim_set_breakpoint(String &arg)
     return -1;
   }
 
+  // get_address() gives a byte address, the simulators count the program
+  // counter in the CPU's address units.
+  address = address / bytes_per_address;
+
   printf("Breakpoint added at 0x%04x.\n", address);
   simulate->set_break_point(address);
 
